@@ -87,7 +87,7 @@ func checkC18(c *Ctx) {
 	c.Rule("W5", "Root frame: index is the constant -1, node is the root parameter, parent and block are left zero.")
 	c.Rule("W6", "The cursor handed to Pre/Post is the popped frame's Cursor: assigned from it in the same block immediately before the call, with no call or other store in between (or passed by address directly).")
 	c.Rule("W7", "The post frame (popped frame with post=true) is appended onto the popped stack, is the base of the children appends, lies behind the not-post edge, and is not reachable from Pre's false edge.")
-	c.Rule("W8", "TRAV: frames are popped from the end of the stack and children are pushed by descending index from childCount(X)-1 to 0 (or popped from the front and pushed ascending), which yields document order.")
+	c.Rule("W8", "TRAV: frames are popped from the end of the stack and children are pushed by descending index from childCount(X)-1 to 0 (a stack), which yields document order.")
 	fn := c.P.Func("Walk")
 	if !c.NeedFunc("W1", fn, "Walk") {
 		return
